@@ -650,33 +650,6 @@ func serialise(roots []*html.Node, stop *html.Node) (lines []string, count int) 
 	return lines, len(order)
 }
 
-func foreignVoidWithChildren(roots []*html.Node) bool {
-	void := map[string]bool{"area": true, "base": true, "br": true, "col": true, "embed": true, "hr": true, "img": true, "input": true, "keygen": true, "link": true, "meta": true, "param": true, "source": true, "track": true, "wbr": true}
-	seen := map[*html.Node]bool{}
-	var walk func(n *html.Node, depth int) bool
-	walk = func(n *html.Node, depth int) bool {
-		if n == nil || seen[n] || depth > 5000 {
-			return false
-		}
-		seen[n] = true
-		if n.Type == html.ElementNode && n.Namespace != "" && void[n.Data] && n.FirstChild != nil {
-			return true
-		}
-		for c := n.FirstChild; c != nil; c = c.NextSibling {
-			if walk(c, depth+1) {
-				return true
-			}
-		}
-		return false
-	}
-	for _, r := range roots {
-		if walk(r, 0) {
-			return true
-		}
-	}
-	return false
-}
-
 type treeRes struct {
 	out       parseOut
 	lines     []string
@@ -792,28 +765,6 @@ func execTrees(ops []string, o *vu.Out) {
 				o.Op("check 0", "ok")
 				continue
 			}
-			low := bytes.ToLower(c.input)
-			if c.kind == "frag" && c.ctx == "-" && strings.Contains(err.Error(), "nil pointer dereference") &&
-				(bytes.Contains(low, []byte("<input")) || bytes.Contains(low, []byte("<select"))) {
-				// parse.go inBodyIM: `p.fragment && p.context.DataAtom == a.Select` with a nil context
-				o.Stat("finding:fragment-nil-context-input-select")
-				o.Fail("fragment-nil-context-input-select", fmt.Sprintf("no tree returned, err=%q: %s", err.Error(), desc))
-				continue
-			}
-			if c.kind == "frag" && c.ns != "-" && strings.HasPrefix(err.Error(), "runtime error:") && bytes.Contains(low, []byte("</html")) {
-				// foreign.go/parse.go parseForeignContent: `</html>` pops the root <html> of a fragment whose context is a foreign element
-				o.Stat("finding:fragment-foreign-context-html-endtag")
-				o.Fail("fragment-foreign-context-html-endtag", fmt.Sprintf("no tree returned, err=%q: %s", err.Error(), desc))
-				continue
-			}
-			if c.kind == "frag" && c.ns == "-" && c.ctx == "head" && (strings.HasPrefix(err.Error(), "runtime error:") ||
-				strings.Contains(err.Error(), "bad parser state") || strings.Contains(err.Error(), "the new current node will be a head element")) {
-				// context <head>: resetInsertionMode picks inHeadIM although the stack holds only the root <html>;
-				// "pop the current node" then pops <html> and later states panic (recovered into an error)
-				o.Stat("finding:fragment-head-context")
-				o.Fail("fragment-head-context", fmt.Sprintf("no tree returned, err=%q: %s", err.Error(), desc))
-				continue
-			}
 			o.Fail("parse-error", fmt.Sprintf("no tree returned, err=%q: %s", err.Error(), desc))
 			continue
 		}
@@ -832,12 +783,7 @@ func execTrees(ops []string, o *vu.Out) {
 			}
 		}
 		for _, e := range res.renderErr {
-			if strings.Contains(e, "void element") && strings.Contains(e, "has child nodes") && foreignVoidWithChildren(res.out.roots) {
-				o.Stat("finding:render-void-foreign-children")
-				o.Fail("render-void-foreign-children", fmt.Sprintf("Render failed (%s): %s", e, desc))
-			} else {
-				o.Fail("render-error", fmt.Sprintf("Render failed (%s): %s", e, desc))
-			}
+			o.Fail("render-error", fmt.Sprintf("Render failed (%s): %s", e, desc))
 		}
 	}
 }
